@@ -418,7 +418,6 @@ class MutableFileNode:
         """
         d = self.get_best_readable_version()
         d.addCallback(self._record_size)
-        d.addCallback(lambda version: version.download_to_data())
 
         # It is possible that the download will fail because there
         # aren't enough shares to be had. If so, we will try again after
@@ -427,16 +426,45 @@ class MutableFileNode:
         # this by getting the best mutable version and downloading from
         # that -- the best mutable version will be a MutableFileVersion
         # with a servermap that was last updated in MODE_WRITE, as we
-        # want. If this fails, then we give up.
-        def _maybe_retry(failure):
-            failure.trap(NotEnoughSharesError)
-
-            d = self.get_best_mutable_version()
-            d.addCallback(self._record_size)
-            d.addCallback(lambda version: version.download_to_data())
+        # want.
+        #
+        # We update the servermap of the failed attempt rather than a
+        # new one: the shares which that attempt found to be bad are
+        # marked in it and stay out of it. With a new map the same
+        # shares would be located again, and if they make up a version
+        # of their own (a share whose unsigned offset table was altered
+        # is filed under a separate version with the same sequence
+        # number) that version would be picked, and fail, again. For
+        # the same reason we keep going for as long as each attempt
+        # rules out shares that the one before still counted on; every
+        # share can be ruled out only once, so this ends.
+        ruled_out = [0]
+        def _download(version):
+            d = version.download_to_data()
+            d.addErrback(_maybe_retry, version)
             return d
 
-        d.addErrback(_maybe_retry)
+        def _maybe_retry(failure, version):
+            failure.trap(NotEnoughSharesError)
+
+            servermap = version._servermap
+            bad = len(servermap.get_bad_shares())
+            if ruled_out[0] and bad <= ruled_out[0]:
+                return failure
+            ruled_out[0] = max(bad, 1)
+            mode = MODE_READ if self.is_readonly() else MODE_WRITE
+            d = self._update_servermap(servermap, mode)
+            d.addCallback(lambda servermap:
+                          self.get_best_mutable_version(servermap=servermap))
+            # if that leaves no version to try, report what went wrong
+            # with the shares that we did find
+            d.addErrback(lambda f: failure
+                         if f.check(UnrecoverableFileError) else f)
+            d.addCallback(self._record_size)
+            d.addCallback(_download)
+            return d
+
+        d.addCallback(_download)
         return d
 
 
